@@ -232,6 +232,7 @@ func (s *syncer) SyncRawPrefix(prefix string) (ch <-chan map[string]*mvccpb.KeyV
   flag allocates
   closure[1] (data map[string]*mvccpb.KeyValue)
     flag allocates
+    modifies allof("ghost:github.com/megaease/easegress/pkg/cluster.gSends"), allof("ghost:github.com/megaease/easegress/pkg/cluster.gSentMap")
     requires data != nil
     ensures one-item-per-snapshot: gSends == old(gSends) + 1
     ensures a-copy-with-exactly-the-snapshots-entries: gSentMap != 0 && gSentMap != ref(data) && (forall k string :: ((k in m) <==> (k in data)) && ((k in data) ==> m[k] == data[k]))
@@ -244,7 +245,7 @@ func (s *syncer) SyncPrefix(prefix string) (ch <-chan map[string]string, err err
   flag allocates
   closure[1] (data map[string]*mvccpb.KeyValue)
     flag allocates
-    flag frame=unchecked
+    modifies allof("ghost:github.com/megaease/easegress/pkg/cluster.gSends"), allof("ghost:github.com/megaease/easegress/pkg/cluster.gSentMap")
     requires data != nil && (forall k string :: (k in data) ==> data[k] != nil)
     ensures one-item-per-snapshot: gSends == old(gSends) + 1
     ensures exactly-the-snapshots-keys-each-with-its-stored-value: gSentMap != 0 && (forall k string :: ((k in m) <==> (k in data)) && ((k in data) ==> m[k] == str(data[k].Value)))
